@@ -95,6 +95,7 @@ func ParseHierarchy(node *OctreeNode, buf []byte) error {
 		}
 
 		current.NodeType = header.Type
+		current.ChildMask = header.ChildMask
 
 		if current.NodeType == 2 {
 			continue
